@@ -54,30 +54,31 @@ var (
 	cConcurrent = simrt.RegisterCounter("probe_requests_overlapping_in_handler")
 	cLive       = simrt.RegisterCounter("probe_liveness_joins_after_faults")
 
-	fStoKeys    = simrt.RegisterCounter("fault_storage_devicekeys_error")
-	fStoKEK     = simrt.RegisterCounter("fault_storage_kek_error")
-	fStoLabel   = simrt.RegisterCounter("fault_storage_askeklabel_error")
-	fStoNet     = simrt.RegisterCounter("fault_storage_homenetid_error")
-	fStoSlow    = simrt.RegisterCounter("fault_storage_slow")
-	fNonce      = simrt.RegisterCounter("fault_joinnonce_overflow")
-	fKEKLen     = simrt.RegisterCounter("fault_kek_invalid_length")
-	fUnknown    = simrt.RegisterCounter("fault_unknown_deveui")
-	fBadMIC     = simrt.RegisterCounter("fault_radio_corrupted_mic")
-	fBodyShort  = simrt.RegisterCounter("fault_body_short_reads")
-	fBodyErr    = simrt.RegisterCounter("fault_body_read_error")
-	fBodyEmpty  = simrt.RegisterCounter("fault_body_empty")
-	fBodyJunk   = simrt.RegisterCounter("fault_body_malformed_json")
-	fWrongType  = simrt.RegisterCounter("fault_body_wrong_message_type")
-	fWriteErr   = simrt.RegisterCounter("fault_response_write_error")
-	fRespLost   = simrt.RegisterCounter("fault_response_lost_then_retry")
-	fRxDelay    = simrt.RegisterCounter("fault_rxdelay_out_of_range")
-	fRotate     = simrt.RegisterCounter("fault_device_keys_rotated")
-	fConfused   = simrt.RegisterCounter("fault_message_type_and_frame_type_disagree")
-	cRotRace    = simrt.RegisterCounter("probe_request_overtaken_by_key_rotation")
-	fRetryDup   = simrt.RegisterCounter("fault_duplicate_delivery")
-	fReqLost    = simrt.RegisterCounter("fault_request_lost")
-	fTruncResp  = simrt.RegisterCounter("fault_response_truncated")
-	errInjected = errors.New("injected storage failure")
+	fStoKeys     = simrt.RegisterCounter("fault_storage_devicekeys_error")
+	fStoKEK      = simrt.RegisterCounter("fault_storage_kek_error")
+	fStoLabel    = simrt.RegisterCounter("fault_storage_askeklabel_error")
+	fStoNet      = simrt.RegisterCounter("fault_storage_homenetid_error")
+	fStoSlow     = simrt.RegisterCounter("fault_storage_slow")
+	fNonce       = simrt.RegisterCounter("fault_joinnonce_overflow")
+	fKEKLen      = simrt.RegisterCounter("fault_kek_invalid_length")
+	fUnknown     = simrt.RegisterCounter("fault_unknown_deveui")
+	fBadMIC      = simrt.RegisterCounter("fault_radio_corrupted_mic")
+	fBodyShort   = simrt.RegisterCounter("fault_body_short_reads")
+	fBodyErr     = simrt.RegisterCounter("fault_body_read_error")
+	fBodyEmpty   = simrt.RegisterCounter("fault_body_empty")
+	fBodyJunk    = simrt.RegisterCounter("fault_body_malformed_json")
+	fWrongType   = simrt.RegisterCounter("fault_body_wrong_message_type")
+	fWriteErr    = simrt.RegisterCounter("fault_response_write_error")
+	fRespLost    = simrt.RegisterCounter("fault_response_lost_then_retry")
+	fRxDelay     = simrt.RegisterCounter("fault_rxdelay_out_of_range")
+	fRotate      = simrt.RegisterCounter("fault_device_keys_rotated")
+	fConfused    = simrt.RegisterCounter("fault_message_type_and_frame_type_disagree")
+	cEmptyCFList = simrt.RegisterCounter("probe_explicit_empty_cflist_member")
+	cRotRace     = simrt.RegisterCounter("probe_request_overtaken_by_key_rotation")
+	fRetryDup    = simrt.RegisterCounter("fault_duplicate_delivery")
+	fReqLost     = simrt.RegisterCounter("fault_request_lost")
+	fTruncResp   = simrt.RegisterCounter("fault_response_truncated")
+	errInjected  = errors.New("injected storage failure")
 )
 
 // ---------------------------------------------------------------- storage
@@ -432,6 +433,10 @@ func build(sw *sim.World) {
 			w.keks[senderIDs[i]] = r.Bytes([]int{16, 24, 32}[r.Intn(3)])
 		}
 	}
+	if r.Intn(4) == 0 {
+		// a store that answers every label, also the empty one, with a default KEK
+		w.keks[""] = r.Bytes(16)
+	}
 	if w.faults && r.Intn(4) == 0 {
 		// a KEK of invalid length somewhere in the store
 		for _, l := range sortedKeys(w.keks) {
@@ -768,6 +773,11 @@ func doRequest(w *world, r *sim.Rand, rq *request, c *reqCtx, faults, live bool)
 			body = bytes.Replace(body, []byte(`"MessageType":"RejoinReq"`), []byte(`"MessageType":"JoinReq"`), 1)
 		}
 		simrt.Count(fConfused)
+	}
+	if rq.rawKind == 0 && rq.cfList == nil && rq.kind != 4 && r.Intn(3) == 0 {
+		// a non-Go peer may send the optional member explicitly empty
+		body = bytes.Replace(body, []byte(`"RxDelay":`), []byte(`"CFList":"","RxDelay":`), 1)
+		simrt.Count(cEmptyCFList)
 	}
 	if faults && rq.rawKind == 0 && r.Intn(6) == 0 && len(body) > 4 {
 		c.bodyErrAt = r.Intn(len(body))
